@@ -42,10 +42,16 @@ def main():
     ap.add_argument("--count", type=int, default=0)
     ap.add_argument("--jobs", type=int, default=8)
     ap.add_argument("--json")
+    ap.add_argument("--benign", action="store_true", help="run EVERY claimed check on the behaviour-preserving catalogue: no alarm allowed")
     args = ap.parse_args()
     only = set(args.only.split(",")) if args.only else None
     results = []
-    for m in MUTANTS:
+    catalogue = MUTANTS
+    if args.benign:
+        from benign_catalogue import BENIGN
+        allp = [c["property_id"] for c in json.load(open(os.path.join(VERIF, "MANIFEST.json")))["checks"]]
+        catalogue = [dict(m, props=allp) for m in BENIGN]
+    for m in catalogue:
         if only and m["id"] not in only:
             continue
         if args.prop and args.prop not in m["props"]:
@@ -77,6 +83,8 @@ def main():
                 rules = sorted({ln.split("rule=")[1].split(" ")[0] for ln in r.stdout.splitlines() if ln.startswith("violation rule=")})
                 results.append({"mutant": m["id"], "prop": prop, "caught": caught, "rc": r.returncode, "rules": rules, "tests_pass": tests_ok})
                 flag = "CAUGHT" if caught else ("HARNESS-ERR" if r.returncode not in (0, 1) else "MISSED")
+                if args.benign:
+                    flag = "FALSE-ALARM" if caught else ("HARNESS-ERR" if r.returncode not in (0, 1) else "quiet")
                 print(f"{flag:11s} {m['id']:34s} {prop} rules={','.join(rules)} tests_pass={tests_ok}", flush=True)
                 if r.returncode not in (0, 1):
                     print(r.stdout[-1500:], r.stderr[-1500:])
@@ -85,6 +93,10 @@ def main():
     if args.json:
         json.dump(results, open(args.json, "w"), indent=1)
     missed = [r for r in results if not r["caught"]]
+    if args.benign:
+        alarms = [r for r in results if r["caught"] or r["rc"] not in (0, 1)]
+        print(f"{len(alarms)} alarms on {len(results)} (benign edit, check) pairs")
+        return 1 if alarms else 0
     print(f"{len(results) - len(missed)}/{len(results)} caught")
     return 1 if missed else 0
 
